@@ -5,6 +5,6 @@ import json, os, subprocess, sys
 sys.path.insert(0, os.path.join(os.path.dirname(os.path.dirname(os.path.abspath(__file__))), "harness"))
 from rbpv import build as B, common as C
 head = subprocess.run(["git", "-C", C.REPO, "rev-parse", "HEAD"], capture_output=True, text=True).stdout.strip()
-json.dump({"reconciled_with": head, "normalisation": "comments and whitespace removed; src/verif_hooks.rs excluded", "files": B.source_fingerprints()},
+json.dump({"reconciled_with": head, "normalisation": "comments and whitespace removed; src/verif_hooks.rs excluded", "files": B.source_fingerprints(), "literals": sorted(B.source_literals())},
           open(B.FINGERPRINTS, "w"), indent=1, sort_keys=True)
 print("fingerprints of", len(B.source_fingerprints()), "files at", head)
